@@ -1295,6 +1295,12 @@ impl ObjectHeader {
         if crate::verif::quarantine_on() {
             *heap_size -= self.nbytes();
             crate::verif::note_quarantined(self as *mut Self as usize);
+            if let ObjectKind::Channel = self.kind {
+                // a quarantined channel object gives up its share of the queue at once, exactly
+                // as a freed one would: what else owns the queue must not depend on this hook
+                let obj = unsafe { &mut *(self as *mut Self as *mut ChannelObject) };
+                obj.data = Arc::new(Mutex::new(VecDeque::new()));
+            }
             return;
         } else {
             crate::verif::note_freed(self as *mut Self as usize);
